@@ -27,12 +27,12 @@ CFG = dict(
         ('ctor', S, 1, 'void (const char *, const std::allocator<char> &)'): 'Str__ctor_cstr',
     },
     free={('isEmpty', 1): 'TextTools__isEmpty', ('isDecimalNumber', 1): 'TextTools__isDecimalNumber_c', ('isDecimalNumber', 3): 'TextTools__isDecimalNumber',
-          ('isDecimalInteger', 2): 'TextTools__isDecimalInteger', ('isdigit', 1): 'verif_isdigit', ('isspace', 1): 'verif_isspace',
+          ('isDecimalInteger', 2): 'TextTools__isDecimalInteger', ('stoi', 3): 'verif_stoi', ('stod', 2): 'verif_stod', ('stol', 3): 'verif_stoi', ('stoul', 3): 'verif_stoi', ('isdigit', 1): 'verif_isdigit', ('isspace', 1): 'verif_isspace',
           ('fromString', 1): [('int (const std::string &)', 'TextTools__fromString_int'), ('double (const std::string &)', 'TextTools__fromString_double')],
           ('operator==', S, 'char'): 'Str__eq_cstr', ('operator==', S, S): 'Str__eq', ('operator+', S, S): 'Str__concat'},
     consts={'npos': 'STR_NPOS'},
-    defaults={('Str__substr', 1): 'STR_NPOS', ('Str__find_last_of_lit', 1): 'STR_NPOS', ('Str__find_last_of_c', 1): 'STR_NPOS'},
-    throws={'Str__substr'},
+    defaults={('verif_stoi', 1): '0', ('verif_stoi', 2): '10', ('verif_stod', 1): '0', ('Str__substr', 1): 'STR_NPOS', ('Str__find_last_of_lit', 1): 'STR_NPOS', ('Str__find_last_of_c', 1): 'STR_NPOS'},
+    throws={'Str__substr', 'verif_stoi', 'verif_stod'},
 )
 STRUCTS = [ST]
 PRE_STRUCTS = r'''
@@ -60,6 +60,14 @@ Str *Deq_Str__erase(Deq_Str *v, Str *pos)
   __CPROVER_ensures(v->n == __CPROVER_old(v->n) - 1 && v->d == __CPROVER_old(v->d) && __CPROVER_return_value == __CPROVER_old(pos))
   __CPROVER_assigns(v->n, __CPROVER_object_whole(v->d));
 #endif
+/* std::stoi / std::stod and friends raise std::invalid_argument or std::out_of_range, which are not exceptions of the library */
+#ifdef VERIF_MODE_BOUNDED
+static inline int verif_stoi(const Str *s, unsigned long *idx, int base) { if (nondet_bool()) verif_exc = EXC_std_out_of_range; return nondet_int(); }
+static inline double verif_stod(const Str *s, unsigned long *idx) { if (nondet_bool()) verif_exc = EXC_std_out_of_range; return nondet_double(); }
+#else
+int verif_stoi(const Str *s, unsigned long *idx, int base) __CPROVER_requires(1) __CPROVER_ensures(verif_exc == __CPROVER_old(verif_exc) || verif_exc == EXC_std_out_of_range) __CPROVER_assigns(verif_exc);
+double verif_stod(const Str *s, unsigned long *idx) __CPROVER_requires(1) __CPROVER_ensures(verif_exc == __CPROVER_old(verif_exc) || verif_exc == EXC_std_out_of_range) __CPROVER_assigns(verif_exc);
+#endif
 /* fromString<T>: iostream extraction, not modelled (value unspecified, no exception) */
 #ifdef VERIF_MODE_BOUNDED
 static inline int TextTools__fromString_int(const Str *s) { return nondet_int(); }
@@ -69,7 +77,7 @@ int TextTools__fromString_int(const Str *s) __CPROVER_requires(1) __CPROVER_ensu
 double TextTools__fromString_double(const Str *s) __CPROVER_requires(1) __CPROVER_ensures(1) __CPROVER_assigns();
 #endif
 '''
-STUB_CONTRACTS = {'Deq_Str__erase', 'TextTools__isEmpty', 'TextTools__fromString_int', 'TextTools__fromString_double', 'Str__substr', 'Str__op_pluseq_c', 'Str__op_pluseq',
+STUB_CONTRACTS = {'verif_stoi', 'verif_stod', 'Deq_Str__erase', 'TextTools__isEmpty', 'TextTools__fromString_int', 'TextTools__fromString_double', 'Str__substr', 'Str__op_pluseq_c', 'Str__op_pluseq',
                   'Str__find_first_of_n', 'Str__find_first_not_of_n', 'Str__find_n', 'Str__find_last_of_n', 'Str__make_copy', 'Str__ctor_copy',
                   'Str__concat', 'Str__eq', 'Str__eq_cstr', 'Str__make_cstr', 'Str__op_assign', 'Str__erase_range',
                   'Deq_Str__push_back'}
